@@ -34,12 +34,21 @@ def tests_against_model(out, tier):
         tq = stats.t.ppf(p.get('sig_level', 0.9), n - n_test - 2)
         sess.set_series(x, y, [0.0], [0.0])
         rq = sess.req(f'tests {n_test} {en.bits(tq)} {en.bits(p.get("min_corr", 0.8))} {en.bits(3.0)} {en.bits(1.5)} {en.bits(2.5)}', 1)
-        pend.append((se.case_of(r, which), d, rq, n, n_test, tq))
+        phi = stats.f.ppf(p.get('flevel', 0.9), 1, n - 1)
+        tqs, tqp = stats.t.ppf(p.get('sig_level', 0.9), n - 2), stats.t.ppf(p.get('power_level', 0.8), n - 2)
+        rd = sess.req(f'design {n_test} {en.bits(phi)} {en.bits(tqs)} {en.bits(tqp)} {en.bits(0.5)}', 1)
+        pend.append((se.case_of(r, which), d, rq, n, n_test, tq, rd))
   if not pend:
     return
   outl = sess.run()
   n_cmp = 0
-  for case, d, rq, n, n_test, tq in pend:
+  for case, d, rq, n, n_test, tq, rd in pend:
+    mcorr, mimp = en.parse_vals(outl[rd][0])[:2]
+    if d['diag_corr'] is not None and abs(d['diag_corr']) < 0.99999 and not (
+        en.close(mcorr, d['diag_corr'], 1e-9, 1.0) and en.close(mimp, d['diag_impact'], 1e-7)):
+      out.mismatch('diag-impact', case, f'design T={d["Tids"]} C={d["Cids"]}: correlation / required impact held by the design '
+                   f'({d["diag_corr"]}, {d["diag_impact"]}) differ from the model formula on its series ({mcorr}, {mimp})')
+      continue
     dw, dw_ok, bb_ok, corr_ok, lo, up, has_p, pa, pb = en.parse_vals(outl[rq][0])
     if has_p:
       # recover the two standardised arguments from the probes (cdf z -> z and z -> z*z) and push them through scipy's cdf
